@@ -99,7 +99,10 @@ def fam_geometry(seed, shard, nshards, n):
         yield (f'apositions {sel} {enc_area(sa)}', ' '.join(enc_pos(b) for b in sa.positions(sel)), 'apositions-' + sel)
         # grid rotation / slicing / python indexing on random labelled grids
         s = gen.random_state(rng, max_h=4, max_w=4, p_floor=0.2, p_wall_border=0.0)
-        yield f'gridrot {ORIENT_TOK[o]} {enc_grid(s.grid)}', enc_grid(s.grid * o), 'gridrot'
+        genc = enc_grid(s.grid)
+        r1 = enc_grid(s.grid * o)
+        r2 = enc_grid(s.grid * o)  # a second product of the same grid object: the source must be intact
+        yield f'gridrot {ORIENT_TOK[o]} {genc}', r1 if (r1 == r2 and enc_grid(s.grid) == genc) else 'SOURCE-GRID-MUTATED ' + r2, 'gridrot'
         sa2 = Area(tuple(sorted((rng.randint(-3, 5), rng.randint(-3, 5)))), tuple(sorted((rng.randint(-3, 5), rng.randint(-3, 5)))))
         yield f'subgrid {enc_grid(s.grid)} {enc_area(sa2)}', enc_grid(s.grid.subgrid(sa2)), 'subgrid'
         gp = Position(rng.randint(-5, 5), rng.randint(-5, 5))
@@ -181,9 +184,52 @@ def fam_trans_random(seed, shard, nshards, n):
         a = rng.choice(ACTIONS)
         natoms = rng.choice([1, 1, 2, 3, 5, 7])
         atoms = [rng.randrange(7) for _ in range(natoms)]
+        if k % 5 == 4:
+            gen.alias_equal(s)  # one instance per distinct object: identity must not matter
         ans, out = real_trans(atoms, s, a, seed=rng.randrange(2**32), via_chain=(k % 3 == 0))
-        tag = 'trans-rand-' + ('err' if out.startswith('ERR') else f'm{mode}')
+        tag = 'trans-rand-' + ('err' if out.startswith('ERR') else f'm{mode}') + ('-aliased' if k % 5 == 4 else '')
         yield trans_line(atoms, s, a, ans), out, tag
+
+
+def fam_trans_history(seed, shard, nshards, n):
+    """multi-step histories run in place on ONE object graph (as an environment does between
+    copies, and pickle keeps instance attributes): every step is replayed by the model from the
+    printed state alone, so any hidden per-object state that influences the dynamics shows"""
+    from harness.codec import dec_obj
+
+    rng = random.Random(f'trans-hist-{seed}-{shard}')
+    fns = _trans_fns()
+    for k in range(n // nshards):
+        s = gen.valid_random_state(rng, max_h=5, max_w=5, p_floor=0.5)
+        if k % 2 == 0:
+            # a door right in front of the agent and the key to it
+            f = s.agent.front()
+            if 0 <= f.y < s.grid.shape.height and 0 <= f.x < s.grid.shape.width:
+                col = rng.randint(0, 4)
+                s.grid[f] = dec_obj(f'D{rng.choice([1, 1, 2])}{col}')
+                if rng.random() < 0.8:
+                    s.agent.grid_object = dec_obj(f'K{col}')
+        atoms = rng.choice([[0, 1, 4, 2], [0, 1, 2, 4, 5], [0, 1, 4], [4, 0, 1, 5, 2], [0, 1, 2, 3, 4, 5, 6]])
+        acts = [rng.choice([6, 0, 0, 7, 4, 5, 1, 2, 3]) for _ in range(rng.randint(2, 8))]
+        if k % 2 == 0:
+            acts[:2] = [6, 0]
+        for ai in acts:
+            a = ACTIONS[ai]
+            before = enc_state(s)
+            rec = RecRng(rng.randrange(2**32))
+            try:
+                if rng.random() < 0.5:
+                    s = trf.transition_with_copy(trf.factory('chain', transition_functions=[trf.factory(TRANS_NAMES[i]) for i in atoms]), s, a, rng=rec)
+                else:
+                    for i in atoms:
+                        fns[i](s, a, rng=rec)
+                out = enc_state(s) + ' | ' + rec.log_str()
+            except Exception as e:
+                out = enc_exc(e)
+            line = (f'trans {len(atoms)} {" ".join(map(str, atoms))} {before} {enc_action(a)} {len(rec.answers)} ' + ' '.join(map(str, rec.answers))).rstrip()
+            yield line, out, 'trans-history'
+            if out.startswith('ERR'):
+                break
 
 
 # ---------------------------------------------------------------------------------------------
